@@ -76,14 +76,16 @@ type op struct {
 	class string
 	deep  bool // member of the reduced alphabet used for the deepest level
 	apply func(w *ingest.MutableOverlayWorld) error
+	adds  b6.FeatureID // feature added or replaced (invalid for tag operations)
+	value string       // tag string value written ("" if none)
 }
 
 func addF(class string, deep bool, f wk.FSpec) op {
-	return op{name: "AddFeature(" + f.String() + ")", class: class, deep: deep, apply: func(w *ingest.MutableOverlayWorld) error { return w.AddFeature(f.Feature()) }}
+	return op{name: "AddFeature(" + f.String() + ")", class: class, deep: deep, adds: f.ID, apply: func(w *ingest.MutableOverlayWorld) error { return w.AddFeature(f.Feature()) }}
 }
 
 func addT(class string, deep bool, id b6.FeatureID, k, v string) op {
-	return op{name: fmt.Sprintf("AddTag(%s,%q=%q)", id, k, v), class: class, deep: deep, apply: func(w *ingest.MutableOverlayWorld) error {
+	return op{name: fmt.Sprintf("AddTag(%s,%q=%q)", id, k, v), class: class, deep: deep, value: v, apply: func(w *ingest.MutableOverlayWorld) error {
 		return w.AddTag(id, b6.Tag{Key: k, Value: b6.NewStringExpression(v)})
 	}}
 }
@@ -212,6 +214,8 @@ func looksLikeFeatureID(v string) bool {
 
 func valueClass(v string) string {
 	switch {
+	case v == "null" || v == "~":
+		return "value-null-or-tilde"
 	case strings.Contains(v, ";"):
 		return "value-contains-semicolon"
 	case looksLikeLatLng(v):
@@ -323,10 +327,57 @@ func errClass(err error) string {
 }
 
 type stateInfo struct {
-	hist    string   // literal history
-	classes []string // op classes of the history
-	values  []string // tag string values used by the history (for classification)
-	where   string   // for part V: where the value was stored
+	hist    string                  // literal history
+	classes []string                // op classes of the history
+	values  []string                // tag string values written by the history
+	creator map[b6.FeatureID]string // class of the operation that last added/replaced an overlay feature
+}
+
+func (i *stateInfo) note(o op) {
+	i.classes = append(i.classes, o.class)
+	if o.value != "" {
+		i.values = append(i.values, o.value)
+	}
+	if o.adds.IsValid() {
+		if i.creator == nil {
+			i.creator = map[b6.FeatureID]string{}
+		}
+		i.creator[o.adds] = o.class
+	}
+}
+
+func (i *stateInfo) last() string {
+	if n := len(i.classes); n > 0 {
+		return i.classes[n-1]
+	}
+	return "none"
+}
+
+// trigger names the input class an import error is attributed to: the special
+// looking tag values of the history if any, else the last operation.
+func (i *stateInfo) trigger() string {
+	set := map[string]bool{}
+	for _, v := range i.values {
+		if c := valueClass(v); c != "value-other" {
+			set[c] = true
+		}
+	}
+	if len(set) == 0 {
+		return "after-" + i.last()
+	}
+	var l []string
+	for c := range set {
+		l = append(l, c)
+	}
+	sort.Strings(l)
+	return strings.Join(l, "+")
+}
+
+func (i *stateInfo) origin(id b6.FeatureID) string {
+	if c, ok := i.creator[id]; ok {
+		return c
+	}
+	return "base-" + id.Type.String()
 }
 
 func tagMap(w b6.World, id b6.FeatureID) map[string]b6.Tag {
@@ -343,79 +394,163 @@ func tagMap(w b6.World, id b6.FeatureID) map[string]b6.Tag {
 
 func kindOf(t b6.Tag) string {
 	s := wk.ExprString(t.Value)
-	if i := strings.IndexByte(s, ':'); i > 0 {
+	if i := strings.IndexAny(s, ":["); i > 0 {
 		return s[:i]
 	}
 	return s
 }
 
-// classifyDiffs names the failing input class for a set of dump differences.
-func (c *world) classifyDiffs(diffs []string, edited, reimported b6.World, private string, info *stateInfo) map[string]bool {
+func overlaidIDs(private string) map[string]bool {
 	out := map[string]bool{}
-	last := ""
-	if n := len(info.classes); n > 0 {
-		last = info.classes[n-1]
-	}
-	for _, d := range diffs {
-		sec := wk.SectionClass(d)
-		rest := strings.TrimPrefix(d[len(sec):], ":")
-		idStr := rest
-		if i := strings.Index(rest, ":\n"); i >= 0 {
-			idStr = rest[:i]
-		}
-		switch sec {
-		case "tagstr", "tags":
-			id := b6.FeatureIDFromString(idStr)
-			store := "overlay-feature-tag"
-			if strings.Contains(private, "T "+id.String()+" ") && !strings.Contains(private, "F "+id.String()+" ") {
-				store = "modified-tag-of-base-feature"
-			}
-			a, b := tagMap(edited, id), tagMap(reimported, id)
-			keys := map[string]bool{}
-			for k := range a {
-				keys[k] = true
-			}
-			for k := range b {
-				keys[k] = true
-			}
-			for k := range keys {
-				ta, oka := a[k]
-				tb, okb := b[k]
-				kc := "plain-key"
-				if strings.HasPrefix(k, "#") || strings.HasPrefix(k, "@") {
-					kc = "searchable-key"
-				}
-				if k == b6.PointTag || k == b6.PathTag {
-					kc = "geometry-key"
-				}
-				switch {
-				case oka && !okb:
-					out[fmt.Sprintf("tag-lost:%s:%s:%s", store, kc, valueClass(ta.Value.String()))] = true
-				case !oka && okb:
-					out[fmt.Sprintf("tag-appeared:%s:%s", store, kc)] = true
-				case ta.Value.String() != tb.Value.String():
-					out[fmt.Sprintf("tag-value-string-changed:%s:%s:%s", store, kc, valueClass(ta.Value.String()))] = true
-				case wk.TagString(ta) != wk.TagString(tb):
-					if sec == "tags" {
-						out[fmt.Sprintf("tag-value-kind-changed:%s-to-%s:%s:%s:%s", kindOf(ta), kindOf(tb), store, kc, valueClass(ta.Value.String()))] = true
-					}
-				}
-			}
-		case "rest":
-			id := b6.FeatureIDFromString(idStr)
-			out[fmt.Sprintf("feature-differs:%s:after-%s", id.Type, last)] = true
-		case "find":
-			out["search-differs:after-"+last] = true
-		default:
-			id := b6.FeatureIDFromString(idStr)
-			out[fmt.Sprintf("%s-differs:%s:after-%s", sec, id.Type, last)] = true
+	for _, l := range strings.Split(private, "\n") {
+		if strings.HasPrefix(l, "F ") {
+			f := strings.Fields(l)
+			out[f[1]] = true
 		}
 	}
 	return out
 }
 
+// classifyDiffs names the failing input classes for the differing sections.
+// Tag differences are classified per key; search differences in a state whose
+// tag strings differ are consequences of those and not reported separately.
+func (c *world) classifyDiffs(a, b wk.Dump, edited, reimported *ingest.MutableOverlayWorld, info *stateInfo) map[string]bool {
+	out := map[string]bool{}
+	var secs []string
+	for k := range a {
+		if b[k] != a[k] {
+			secs = append(secs, k)
+		}
+	}
+	for k := range b {
+		if _, ok := a[k]; !ok {
+			secs = append(secs, k)
+		}
+	}
+	sort.Strings(secs)
+	tagStringsDiffer := false
+	for _, k := range secs {
+		sec := wk.SectionClass(k)
+		if sec != "tagstr" && sec != "tags" {
+			continue
+		}
+		id := b6.FeatureIDFromString(k[len(sec)+1:])
+		ta, tb := tagMap(edited, id), tagMap(reimported, id)
+		keys := map[string]bool{}
+		for x := range ta {
+			keys[x] = true
+		}
+		for x := range tb {
+			keys[x] = true
+		}
+		for x := range keys {
+			va, oka := ta[x]
+			vb, okb := tb[x]
+			switch {
+			case oka && !okb:
+				out["tag-lost:"+valueClass(va.Value.String())+":on-"+info.origin(id)] = true
+				tagStringsDiffer = true
+			case !oka && okb:
+				out["tag-appeared:on-"+info.origin(id)] = true
+				tagStringsDiffer = true
+			case va.Value.String() != vb.Value.String():
+				out["tag-value-string-changed:"+valueClass(va.Value.String())] = true
+				tagStringsDiffer = true
+			case wk.TagString(va) != wk.TagString(vb):
+				out[fmt.Sprintf("tag-value-kind-changed:%s-to-%s:%s", kindOf(va), kindOf(vb), valueClass(va.Value.String()))] = true
+			}
+		}
+	}
+	moreCopies := false
+	oa, ob := overlaidIDs(ingest.VerifC18OverlayState(edited)), overlaidIDs(ingest.VerifC18OverlayState(reimported))
+	for id := range ob {
+		if !oa[id] {
+			moreCopies = true
+		}
+	}
+	findKinds, findTypes := map[string]bool{}, map[string]bool{}
+	for _, k := range secs {
+		sec := wk.SectionClass(k)
+		arg := strings.TrimPrefix(k[len(sec):], ":")
+		switch sec {
+		case "tagstr", "tags":
+		case "rest":
+			id := b6.FeatureIDFromString(arg)
+			out["feature-differs:"+info.origin(id)] = true
+		case "feat":
+			id := b6.FeatureIDFromString(arg)
+			switch {
+			case a[k] == "nil":
+				out["feature-appeared:"+info.origin(id)] = true
+			case b[k] == "nil":
+				out["feature-lost:"+info.origin(id)] = true
+			default:
+				out["feature-differs:"+info.origin(id)] = true
+			}
+		case "find":
+			if tagStringsDiffer {
+				continue
+			}
+			q := arg
+			if i := strings.IndexByte(q, '('); i > 0 {
+				q = q[:i]
+			}
+			findKinds[q] = true
+			sa, sb := map[string]bool{}, map[string]bool{}
+			for _, x := range strings.Fields(a[k]) {
+				sa[x] = true
+			}
+			for _, x := range strings.Fields(b[k]) {
+				sb[x] = true
+			}
+			sym := 0
+			for x := range sa {
+				if !sb[x] {
+					findTypes[b6.FeatureIDFromString(x).Type.String()+"-missing-after-import"] = true
+					sym++
+				}
+			}
+			for x := range sb {
+				if !sa[x] {
+					findTypes[b6.FeatureIDFromString(x).Type.String()+"-only-after-import"] = true
+					sym++
+				}
+			}
+			if sym == 0 {
+				findTypes["order"] = true
+			}
+		case "trav":
+			if moreCopies {
+				out["trav-differs:import-copies-base-referrers-into-the-overlay"] = true
+			} else {
+				out["trav-differs:after-"+info.last()] = true
+			}
+		default:
+			id := b6.FeatureIDFromString(arg)
+			if sec == "each" {
+				out["each-differs"] = true
+			} else {
+				out[fmt.Sprintf("%s-differs:%s", sec, info.origin(id))] = true
+			}
+		}
+	}
+	if len(findKinds) > 0 {
+		var ks, ts []string
+		for k := range findKinds {
+			ks = append(ks, k)
+		}
+		for k := range findTypes {
+			ts = append(ts, k)
+		}
+		sort.Strings(ks)
+		sort.Strings(ts)
+		out["search-differs:"+strings.Join(ks, "+")+":"+strings.Join(ts, "+")] = true
+	}
+	return out
+}
+
 // checkState exports, re-imports and compares. Returns the outcome class.
-func (c *world) checkState(r *kit.Result, w *ingest.MutableOverlayWorld, editedDump wk.Dump, private string, info *stateInfo, reps int) string {
+func (c *world) checkState(r *kit.Result, w *ingest.MutableOverlayWorld, editedDump wk.Dump, info *stateInfo, reps int) string {
 	outcome := "equal"
 	seen := map[string]bool{}
 	for rep := 0; rep < reps; rep++ {
@@ -437,11 +572,11 @@ func (c *world) checkState(r *kit.Result, w *ingest.MutableOverlayWorld, editedD
 		r.Evals++
 		fresh := ingest.NewMutableOverlayWorld(c.base)
 		if cls, msg := kit.Catch(func() { _, err = ingest.IngestChangesFromYAML(strings.NewReader(y)).Apply(fresh) }); cls != "" {
-			r.Violate("import:"+cls+":after-"+info.classes[len(info.classes)-1], "history: %s\nyaml:\n%s\n%s", info.hist, y, msg)
+			r.Violate("import:"+cls+":"+info.trigger(), "history: %s\nyaml:\n%s\n%s", info.hist, y, msg)
 			return "import-panic"
 		}
 		if err != nil {
-			r.Violate("import-error:"+errClass(err)+":after-"+info.classes[len(info.classes)-1], "history: %s\nyaml:\n%s\nIngestChangesFromYAML(...).Apply(fresh overlay over the same base): %v", info.hist, y, err)
+			r.Violate("import-error:"+errClass(err)+":"+info.trigger(), "history: %s\nyaml:\n%s\nIngestChangesFromYAML(...).Apply(fresh overlay over the same base): %v", info.hist, y, err)
 			outcome = "import-error"
 			continue
 		}
@@ -451,7 +586,7 @@ func (c *world) checkState(r *kit.Result, w *ingest.MutableOverlayWorld, editedD
 			continue
 		}
 		outcome = "diff"
-		classes := c.classifyDiffs(diffs, w, fresh, private, info)
+		classes := c.classifyDiffs(editedDump, got, w, fresh, info)
 		if len(classes) == 0 {
 			classes["unclassified:"+wk.SectionClass(diffs[0])] = true
 		}
@@ -512,7 +647,7 @@ func runHistory(c *world, r *kit.Result, alphabet []op, first int, depth int, re
 				return false // only successful edits form histories
 			}
 			names = append(names, o.name)
-			info.classes = append(info.classes, o.class)
+			info.note(o)
 		}
 		info.hist = strings.Join(names, " · ")
 		r.States++
@@ -528,7 +663,7 @@ func runHistory(c *world, r *kit.Result, alphabet []op, first int, depth int, re
 		if private != "" {
 			r.Keys = append(r.Keys, key)
 		}
-		out := c.checkState(r, w, ed, private, info, reps)
+		out := c.checkState(r, w, ed, info, reps)
 		r.AddOutcome(fmt.Sprintf("depth%d:%s", len(path), out))
 		r.Count("last-op:"+alphabet[path[len(path)-1]].class, 1)
 		if sample && r.Sample == nil && len(path) == depth {
@@ -596,7 +731,7 @@ func runValue(c *world, r *kit.Result, v string, reps int) {
 	)
 	for _, s := range subs {
 		w := ingest.NewMutableOverlayWorld(c.base)
-		info := &stateInfo{where: s.where}
+		info := &stateInfo{}
 		var names []string
 		ok := true
 		for _, o := range s.ops {
@@ -612,18 +747,20 @@ func runValue(c *world, r *kit.Result, v string, reps int) {
 				break
 			}
 			names = append(names, o.name)
+			info.note(o)
 		}
 		if !ok {
 			continue
 		}
 		info.hist = strings.Join(names, " · ")
-		info.classes = []string{s.where}
+		info.classes = append(info.classes, s.where)
+		info.values = append(info.values, v)
 		r.States++
 		r.Transitions++
 		private := ingest.VerifC18OverlayState(w)
 		ed := c.dump(w)
 		r.Keys = append(r.Keys, hash(private))
-		out := c.checkState(r, w, ed, private, info, reps)
+		out := c.checkState(r, w, ed, info, reps)
 		r.AddOutcome("value:" + valueClass(v) + ":" + out)
 		r.Count("where:"+s.where, 1)
 	}
